@@ -10,7 +10,7 @@ from ..core import AnalysisError, Ctx, norm, fold
 from ..pyfacts import dotted, calls_in, guards_at
 
 META = {
-    "explanation": "(B1) the abstract transformer of C02 is run under the four combinations of include_position x include_comments: for every callback and every child-class sequence the grammar admits, the result with hidden __keys__ removed must be identical to the plain result. (B2) composite() is evaluated on attribute dictionaries that carry __position__, __tokens__ and __comments__: they are removed before the keyword is read, positions / comments end up only under the hidden keys, nothing hidden other than __type__/__position__/__comments__ survives. (B3) the three CommentsTransformer callbacks are evaluated with the main transformer stubbed to return a known dictionary: they return that dictionary with stores under __comments__ only. (B4) Parser.__init__ is evaluated with lark's entry point replaced by a recorder, with and without include_comments: the second request differs from the first by exactly propagate_positions and lexer callbacks, the callbacks are bound list.append on the comment buffer and are registered only for terminals the grammar ignores (so no token is altered or dropped); _assign_comments only attaches meta.comments. (B5) printing a dictionary that carries __position__ and __comments__ gives, comment pieces apart, exactly the lines of the plain dictionary - under six option sets (defaults, align_values with three indents, end_comment, separate_complex_types) and for two key orders (keywords before / between and after nested blocks).",
+    "explanation": "(B1) the abstract transformer of C02 is run under the four combinations of include_position x include_comments: for every callback and every child-class sequence the grammar admits, the result with hidden __keys__ removed must be identical to the plain result. (B2) composite() is evaluated on attribute dictionaries that carry __position__, __tokens__ and __comments__: they are removed before the keyword is read, positions / comments end up only under the hidden keys, nothing hidden other than __type__/__position__/__comments__ survives. (B3) the three CommentsTransformer callbacks are evaluated with the main transformer stubbed to return a known dictionary: they return that dictionary with stores under __comments__ only. (B4) Parser.__init__ is evaluated with lark's entry point replaced by a recorder, with and without include_comments: the second request differs from the first by exactly propagate_positions and lexer callbacks, the callbacks are bound list.append on the comment buffer and are registered only for terminals the grammar ignores (so no token is altered or dropped); _assign_comments only attaches meta.comments. (B5) printing a dictionary that carries __position__ and __comments__ gives, comment pieces apart, exactly the lines of the plain dictionary - under six option sets (defaults, align_values with three indents, end_comment, separate_complex_types) and for two key orders (keywords before / between and after nested blocks). (B7) Parser.parse, evaluated with a recording stand-in for lark on text of unknown content holding CR LF and U+2028 line breaks, hands the lexer the very text it was given with and without include_comments.",
     "level_text": "Transparency is decided per callback over the whole shape language of the grammar (not per document) and per printer category; together with C03's hidden-key rule this covers every node kind the comment pass touches.",
     "level_note": "Trusted: lark's propagate_positions leaves the tree shape unchanged; lexer callbacks on ignored terminals cannot alter the token stream.",
     "technique": "differential abstract interpretation of the transformer under the four flag settings + evaluation of the comment transformer / printer with recognisable markers",
